@@ -705,6 +705,37 @@ def rule_n11(ctx):
         raise Unrecognised("C09.N11", LANG, "no SMTFormula construction over a simplified term found (expected convert_smt_formula_to_nnf)")
 
 
+def rule_n12(ctx):
+    """The memo of a BindExpression (`prefixes`: tree prefixes whose bindings name the expression's own variable objects) belongs to that object: it is created
+    empty by __init__ and filled by to_tree_prefix only.  Copying it to a renamed copy makes the copy answer with the OLD variables."""
+    m = ctx.repo.module(LANG, "C09.N12")
+    writers = []
+    for q, fn in m.functions():
+        if not isinstance(fn, ast.FunctionDef):
+            continue
+        for a in walk_local(fn):
+            tg = []
+            if isinstance(a, ast.Assign):
+                tg = a.targets
+            elif isinstance(a, (ast.AugAssign, ast.AnnAssign)):
+                tg = [a.target]
+            for t in tg:
+                base = t.value if isinstance(t, ast.Subscript) else t
+                if isinstance(base, ast.Attribute) and base.attr == "prefixes":
+                    writers.append((q, a, src(base.value)))
+        for c in calls_in(fn, include_nested=False):
+            if isinstance(c.func, ast.Attribute) and c.func.attr in ("update", "setdefault") and isinstance(c.func.value, ast.Attribute) and c.func.value.attr == "prefixes":
+                writers.append((q, c, src(c.func.value.value)))
+    if not writers:
+        raise Unrecognised("C09.N12", LANG, "no writer of BindExpression.prefixes found")
+    for q, node, recv in writers:
+        ok = q in ("BindExpression.__init__", "BindExpression.to_tree_prefix") and recv == "self"
+        ctx.check(ok, "N12-mexpr-memo-owner", f"{LANG}:{q}", f"{src(node)[:50]} written by its owner only", site(node),
+                  f"the memo `prefixes` of a match expression is written in `{q}` (receiver `{recv}`): its entries map the ORIGINAL variable objects to paths, so a renamed copy "
+                  "(substitute_variables, as ensure_unique_bound_variables produces) answers with variables that do not occur in the renamed formula - evaluation yields UNKNOWN instead of a verdict",
+                  "created by __init__, filled by to_tree_prefix on self")
+
+
 def rule_n8(ctx):
     """Renaming / substitution maps are applied SIMULTANEOUSLY: no substitute_* method folds the map entry by entry over an accumulator
     (a chained map {v0 -> v1, v1 -> v2}, as ensure_unique_bound_variables produces, would collapse v0 and v1)."""
@@ -746,6 +777,7 @@ def run(ctx) -> str:
     ctx.guarded("N9", lambda: rule_n9(ctx))
     ctx.guarded("N10", lambda: rule_n10(ctx))
     ctx.guarded("N11", lambda: rule_n11(ctx))
+    ctx.guarded("N12", lambda: rule_n12(ctx))
     ctx.guarded("N7", lambda: rule_n7(ctx))
     ctx.guarded("N1", lambda: rule_n1(ctx))
     ctx.guarded("N2", lambda: rule_n2(ctx))
